@@ -284,10 +284,12 @@ theorem counterexample_sc_bits_allocated_12 (c : CodecImpl) (conv : List Int →
   obtain ⟨mod, bytes, hmod, _, rfl⟩ := scBuild_ok c ts pi 12 x o h
   exact (sc_request ts pi 12 x mod hmod).2.2.1
 
-/-- the same for RLE / JPEG-LS, conditional on the codec's `Lossless` law (exercised on the real codecs) -/
-theorem sc_decodes_equal_encapsulated_partial (c : CodecImpl) (hc : c.Lossless) (conv : List Int → List Int) (ts pi : String)
-    (ba : Int) (x : Frame) (o : SCObject) (hts : isEncapsulated ts = true) (hnc : convertsColour pi x.spp = false)
-    (h : scBuild c ts pi ba x = .ok o) : scDecode c conv ts o = .ok x.data :=
+/-- the same for RLE / JPEG-LS, conditional on the codec's law `LosslessOn codecRegion` (the region on which the
+correspondence demands it of the real codecs; a secondary capture stores as many bits as it allocates, so its RLE requests
+lie inside; `HdVerif.C07.tagCodec` is a non-trivial codec obeying the law) -/
+theorem sc_decodes_equal_encapsulated_partial (c : CodecImpl) (hc : c.LosslessOn codecRegion) (conv : List Int → List Int)
+    (ts pi : String) (ba : Int) (x : Frame) (o : SCObject) (hts : ts = rle ∨ ts = jpegLs)
+    (hnc : convertsColour pi x.spp = false) (h : scBuild c ts pi ba x = .ok o) : scDecode c conv ts o = .ok x.data :=
   sc_encapsulated_decodes c hc conv ts pi ba x o hts hnc h
 
 /-- **`unsupported_refused`, secondary capture**: an array / bits allocated / photometric interpretation outside
